@@ -36,6 +36,11 @@ func genC13(t *rapid.T) *Case {
 			}
 			c.HTML = strings.Replace(c.HTML, "<body>\n", "<body>\n"+lead, 1)
 		}
+		if rapid.IntRange(0, 2).Draw(t, "c18table") == 0 {
+			// a table from the feature space of C18 (roles, datatable, nesting, shapes, headers ...)
+			v := c18Decode(rapid.IntRange(0, c18Total()-1).Draw(t, "c18vec"))
+			c.HTML = strings.Replace(c.HTML, "</body>", v.renderTableWith("cw", "T9")+"\n"+g.para()+"</body>", 1)
+		}
 		c.Opts.URL = genPageURL(t)
 		c.Kind = "article"
 	}
@@ -131,6 +136,12 @@ func checkC13(c *Case) (*Violation, caseInfo) {
 		path := "/c13/" + shortHash(c.HTML) + "/page.html"
 		srvPages.Store(path, c.HTML)
 		addr := server.URL + path
+		if h := shortHash(c.HTML); h[0]%3 == 0 {
+			// every third page is requested through an address that redirects to it: the supplied
+			// address stays the page URL
+			addr = server.URL + "/redir" + path
+			info.Classes = append(info.Classes, "applyforurl-through-redirect")
+		}
 		if h := shortHash(c.HTML); h[len(h)-1]%2 == 0 {
 			// every other page is addressed with a fragment
 			addr += "#section-2"
